@@ -142,19 +142,82 @@ class PropertyRun:
             c._key = q
             t = time.time()
             from .contract import verify_fragment
-            rep = verify_fragment(world, c) if getattr(c, 'is_fragment', False) else verify_function(world, c)
+            rep = self.vc_cache_load(q)
+            if rep is None:
+                rep = verify_fragment(world, c) if getattr(c, 'is_fragment', False) else verify_function(world, c)
+                rep._fresh = True
             rep.contract = c
             reports.append(rep)
             allobs.extend(rep.obligations)
-            self.log("  [vcgen] %-45s configs=%d paths=%d (ret %d / raise %d) obligations=%d  %.1fs%s" % (
+            self.log("  [vcgen%s] %-45s configs=%d paths=%d (ret %d / raise %d) obligations=%d  %.1fs%s" % (
+                ' reused' if getattr(rep, 'from_cache', False) else '',
                 q.replace('tangermeme.', ''), len(rep.configs), rep.paths, rep.returns, rep.raises, len(rep.obligations),
                 time.time() - t, ('  UNSUPPORTED: %s' % rep.unsupported[:2]) if rep.unsupported else ''))
         t = time.time()
-        smt.discharge(allobs, tier=self.tier, seed=self.seed)
+        smt.discharge([o for o in allobs if not getattr(o, 'cached', False)], tier=self.tier, seed=self.seed)
         self.solver_wall = time.time() - t
         self.reports = reports
         self.allobs = allobs
+        for q, rep in zip(plan.FUNCTIONS, reports):
+            if getattr(rep, '_fresh', False):
+                self.vc_cache_store(q, rep)
         return reports
+
+    # ---- obligations of a function that were all discharged are remembered inside this checkout, keyed by the
+    # hash of the repository sources, of the verifier's own code, the tier and the seed: several properties
+    # put the same function under contract (deep_lift_shap: C04-C07, _p_values: C13/C14) and need not
+    # regenerate and re-discharge identical obligations.  Any change to /repo or to /verif changes the key.
+    def vc_cache_key(self, q):
+        import hashlib
+        from .bind import tree_hash
+        h = hashlib.sha256()
+        h.update(tree_hash().encode())
+        for d in ('vf', 'contracts'):
+            for f in sorted(os.listdir(os.path.join(VERIF, d))):
+                if f.endswith('.py'):
+                    h.update(open(os.path.join(VERIF, d, f), 'rb').read())
+        h.update(('%s|%s|%s|%s' % (q, self.tier, self.seed, os.environ.get('PYTHONHASHSEED', ''))).encode())
+        return h.hexdigest()[:24]
+
+    def vc_cache_load(self, q):
+        if os.environ.get('VERIF_NO_VC_CACHE'):
+            return None
+        try:
+            path = os.path.join(VERIF, '.cache', 'vc', self.vc_cache_key(q) + '.json')
+            d = json.load(open(path))
+        except Exception:
+            return None
+        from .interp import Obligation
+        rep = FunctionReport(d['qualname'])
+        rep.configs, rep.paths, rep.returns, rep.raises, rep.seconds = d['configs'], d['paths'], d['returns'], d['raises'], d['seconds']
+        rep.trusted = set(d['trusted'])
+        for name, kind, seconds, backend in d['obligations']:
+            ob = Obligation(name, [], True, kind, [])
+            ob.result, ob.seconds, ob.backend, ob.cached = 'unsat', seconds, backend, True
+            rep.obligations.append(ob)
+        rep.from_cache = True
+        try:
+            # the binder still reads and records the current source of the function (file, line, sha256)
+            pyfn = self.world.bind.resolve(d['qualname'])
+            self.world.bind.function_ast(pyfn)
+        except Exception:
+            return None
+        self.vc_cached = getattr(self, 'vc_cached', 0) + 1
+        return rep
+
+    def vc_cache_store(self, q, rep):
+        if os.environ.get('VERIF_NO_VC_CACHE') or rep.unsupported or not rep.obligations or any(o.result != 'unsat' for o in rep.obligations):
+            return
+        try:
+            d = os.path.join(VERIF, '.cache', 'vc')
+            os.makedirs(d, exist_ok=True)
+            rec = {'qualname': rep.qualname, 'configs': rep.configs, 'paths': rep.paths, 'returns': rep.returns, 'raises': rep.raises,
+                   'seconds': rep.seconds, 'trusted': sorted(rep.trusted),
+                   'obligations': [(o.name, o.kind, round(o.seconds, 3), o.backend) for o in rep.obligations]}
+            with open(os.path.join(d, self.vc_cache_key(q) + '.json'), 'w') as f:
+                json.dump(rec, f)
+        except Exception:
+            pass
 
     def triage(self):
         """sat -> replay on the real code; unknown/error/unsupported -> small-scope refutation, else undecided"""
@@ -640,6 +703,9 @@ class PropertyRun:
             'samples': samples or ['(no deductive obligations for this property in this run)'],
             'explanation': plan.EXPLANATION,
         }
+        if getattr(self, 'vc_cached', 0):
+            cov['vc_results_reused'] = ('%d function(s): obligations generated and discharged earlier in this checkout for the same repository '
+                                        'sources, verifier code, tier and seed (by the check of another property) were reused' % self.vc_cached)
         if getattr(self, 'replay_errors', None):
             cov['replay_errors'] = self.replay_errors
             for e_ in self.replay_errors[:2]:
